@@ -191,6 +191,9 @@ def call_method(X, obj, name, args, kwargs):
             return NONE
         if name == 'copy':
             return VList(list(obj.items))
+        if name == 'insert' and len(args) == 2 and _is(args[0], VInt) and z3.is_int_value(z3.simplify(args[0].t)):
+            obj.items.insert(z3.simplify(args[0].t).as_long(), args[1])
+            return NONE
         raise Unsupported(f'list method {name}')
     if _is(obj, VBytes, VStr):
         S = type(obj)
